@@ -287,15 +287,21 @@ def trace_corr(mode, module, ntraces, relevant, rule, nontrivial, corpus_dir=Non
                 for k, (st, code) in enumerate(zip(steps, codes)):
                     dist['%s/%s' % (st['op']['op'], 'ok' if st['res']['ok'] else 'rejected')] += 1
                     if code and first:
-                        first = False   # only the first divergence of a trace is meaningful
                         item = {'trace': tr.get('trace'), 'step': k, 'code': code, 'op': st['op'], 'impl': st['res'],
                                 'history': {'init': tr['init'], 'steps': tr['steps'][:k]},
                                 'why': 'implementation deviates from the Coq model (for which the property is proved) at this step; '
                                        'code bits: 1 status, 2 return data, 4 events, 8 storage, 16 balances, 32 property monitor'}
                         if relevant(st['op'], code):
+                            first = False
                             monitor_failures.append(item)
                         else:
                             warnings.append({'trace': tr.get('trace'), 'step': k, 'code': code, 'op': st['op']['op']})
+                            # a deviation outside this property's projection that is confined to storage (no status, return data,
+                            # event or balance difference) does not end the comparison: a later step of a relevant operation that
+                            # behaves differently is still reported.  Any other deviation does end it (states may have parted for
+                            # reasons that are not this property's concern; the property whose projection covers it reports it).
+                            if code != 8:
+                                first = False
         # property monitors on the implementation's own observations (independent of the model's step function)
         if monitor:
             for tr in traces:
